@@ -15,6 +15,9 @@ pub struct Tape {
     /// tape of this run.
     out: Vec<u32>,
     limit: usize,
+    /// (start, end, index of the count draw) of repeated sub-structures, so
+    /// that the shrinker can delete one element and decrement its count
+    spans: Vec<(usize, usize, usize)>,
 }
 
 impl Tape {
@@ -25,6 +28,7 @@ impl Tape {
             pos: 0,
             out: Vec::new(),
             limit: 1 << 20,
+            spans: Vec::new(),
         }
     }
 
@@ -35,6 +39,7 @@ impl Tape {
             pos: 0,
             out: Vec::new(),
             limit: 1 << 20,
+            spans: Vec::new(),
         }
     }
 
@@ -93,43 +98,85 @@ impl Tape {
         (hi << 32) | lo
     }
 
-    pub fn canonical(&self) -> &[u32] {
-        &self.out
+    /// Position of the next draw (in the canonical tape).
+    pub fn pos(&self) -> usize {
+        self.out.len()
+    }
+
+    /// Records that draws [start, pos) generated one element of a sequence
+    /// whose length was drawn at index `count_at`.
+    pub fn element(&mut self, start: usize, count_at: usize) {
+        let end = self.out.len();
+        if end > start {
+            self.spans.push((start, end, count_at));
+        }
     }
 
     pub fn into_canonical(self) -> Vec<u32> {
         self.out
+    }
+
+    pub fn into_parts(self) -> (Vec<u32>, Vec<(usize, usize, usize)>) {
+        (self.out, self.spans)
     }
 }
 
 /// Generic tape shrinking. `fails(tape)` runs the scenario on a candidate
 /// tape and returns the canonical tape of that run if the *same* violation
 /// (same oracle rule) occurred. Bounded by `budget` scenario executions.
-pub fn shrink<F>(start: Vec<u32>, budget: usize, mut fails: F) -> (Vec<u32>, usize)
+pub type Spans = Vec<(usize, usize, usize)>;
+
+pub fn shrink<F>(start: Vec<u32>, start_spans: Spans, budget: usize, mut fails: F) -> (Vec<u32>, usize)
 where
-    F: FnMut(&[u32]) -> Option<Vec<u32>>,
+    F: FnMut(&[u32]) -> Option<(Vec<u32>, Spans)>,
 {
     let mut best = start;
+    let mut spans = start_spans;
     let mut used = 0usize;
-    let mut try_candidate = |cand: &[u32], best: &mut Vec<u32>, used: &mut usize| -> bool {
-        if *used >= budget {
-            return false;
-        }
-        *used += 1;
-        match fails(cand) {
-            Some(canon) => {
-                if tape_less(&canon, best) {
-                    *best = canon;
-                    true
-                } else {
-                    false
-                }
+    let mut try_candidate =
+        |cand: &[u32], best: &mut Vec<u32>, spans: &mut Spans, used: &mut usize| -> bool {
+            if *used >= budget {
+                return false;
             }
-            None => false,
-        }
-    };
+            *used += 1;
+            match fails(cand) {
+                Some((canon, sp)) => {
+                    if tape_less(&canon, best) {
+                        *best = canon;
+                        *spans = sp;
+                        true
+                    } else {
+                        false
+                    }
+                }
+                None => false,
+            }
+        };
     loop {
         let before = best.clone();
+        // 0. structural: delete one element of a sequence and decrement the
+        // drawn length of that sequence (largest elements first)
+        let mut progress = true;
+        while progress && used < budget {
+            progress = false;
+            let mut order: Vec<(usize, usize, usize)> = spans.clone();
+            order.sort_by_key(|(s, e, _)| std::cmp::Reverse(e - s));
+            for (s, e, c) in order {
+                if e > best.len() || c >= s || best[c] == 0 {
+                    continue;
+                }
+                let mut cand = best.clone();
+                cand[c] -= 1;
+                cand.drain(s..e);
+                if try_candidate(&cand, &mut best, &mut spans, &mut used) {
+                    progress = true;
+                    break;
+                }
+                if used >= budget {
+                    break;
+                }
+            }
+        }
         // 1. delete spans
         let mut size = (best.len() / 2).max(1);
         loop {
@@ -140,7 +187,7 @@ where
                     let end = (start + size).min(best.len());
                     let mut cand = best.clone();
                     cand.drain(start..end);
-                    try_candidate(&cand, &mut best, &mut used);
+                    try_candidate(&cand, &mut best, &mut spans, &mut used);
                 }
                 i = start;
             }
@@ -155,13 +202,13 @@ where
             if best[i] != 0 {
                 let mut cand = best.clone();
                 cand[i] = 0;
-                if !try_candidate(&cand, &mut best, &mut used) && i < best.len() && best[i] > 1 {
+                if !try_candidate(&cand, &mut best, &mut spans, &mut used) && i < best.len() && best[i] > 1 {
                     let mut cand = best.clone();
                     cand[i] = best[i] / 2;
-                    if !try_candidate(&cand, &mut best, &mut used) && i < best.len() {
+                    if !try_candidate(&cand, &mut best, &mut spans, &mut used) && i < best.len() {
                         let mut cand = best.clone();
                         cand[i] = best[i] - 1;
-                        try_candidate(&cand, &mut best, &mut used);
+                        try_candidate(&cand, &mut best, &mut spans, &mut used);
                     }
                 }
             }
